@@ -1,5 +1,172 @@
-(* Wire entry points of the C18 model (stub until the model is built). *)
-From Coq Require Import ZArith List.
-From SG Require Import Base.Sx.
+(* Wire entry points of the C18 model (DataSet operation sequences on a store of data sets). *)
+From Coq Require Import ZArith List QArith Qcanon Bool.
+From SG Require Import Base.Sx Base.QcUtil Model.DataSet.
+Import ListNotations.
 Open Scope Z_scope.
-Definition entry_C18 (sub : Z) (a : sx) : sx := sx_err 0.
+
+(* ---- codec ------------------------------------------------------------------------------------------- *)
+Definition of_optrow (o : option row) : sx := match o with None => Lv [] | Some r => Lv [of_LQc r] end.
+Definition of_rng (r : rng) : sx :=
+  match r with RNone => Lv [] | RScalar lo hi => Lv [Zv 0; of_Qc lo; of_Qc hi] | RArr mn mx => Lv [Zv 1; of_LQc mn; of_LQc mx] end.
+Definition of_fac (f : fac) : sx :=
+  match f with FNone => Lv [] | FScalar q => Lv [Zv 0; of_Qc q] | FArr l => Lv [Zv 1; of_LQc l] end.
+(* (values labels dim flat shuffled scaled range factor omin omax) *)
+Definition of_ds (d : ds) : sx :=
+  Lv [of_LLQc (values d); of_LZ (map snd (rows d)); Zv (Z.of_nat (ddim d)); sx_bool (flat d); sx_bool (shuffled d); sx_bool (scaled d);
+      of_rng (srange d); of_fac (sfactor d); of_optrow (omin d); of_optrow (omax d)].
+
+Definition get_optrow (s : sx) : option (option row) :=
+  match s with
+  | Lv [] => Some None
+  | Lv [r] => match get_LQc r with Some r => Some (Some r) | None => None end
+  | _ => None
+  end.
+Definition get_rng (s : sx) : option rng :=
+  match s with
+  | Lv [] => Some RNone
+  | Lv [Zv 0; lo; hi] => match get_Qc lo, get_Qc hi with Some lo, Some hi => Some (RScalar lo hi) | _, _ => None end
+  | Lv [Zv 1; mn; mx] => match get_LQc mn, get_LQc mx with Some mn, Some mx => Some (RArr mn mx) | _, _ => None end
+  | _ => None
+  end.
+Definition get_fac (s : sx) : option fac :=
+  match s with
+  | Lv [] => Some FNone
+  | Lv [Zv 0; q] => match get_Qc q with Some q => Some (FScalar q) | None => None end
+  | Lv [Zv 1; l] => match get_LQc l with Some l => Some (FArr l) | None => None end
+  | _ => None
+  end.
+Definition get_arg (s : sx) : option arg :=
+  match s with
+  | Lv [Zv 0; q] => match get_Qc q with Some q => Some (AScalar q) | None => None end
+  | Lv [Zv 1; l] => match get_LQc l with Some l => Some (AArr l) | None => None end
+  | _ => None
+  end.
+Definition get_ds (s : sx) : option ds :=
+  match s with
+  | Lv [vals; labs; Zv dm; fl; sh; sc; rg; fc; mn; mx] =>
+    match get_LLQc vals, get_LZ labs, get_bool fl, get_bool sh, get_bool sc, get_rng rg, get_fac fc, get_optrow mn, get_optrow mx with
+    | Some vals, Some labs, Some fl, Some sh, Some sc, Some rg, Some fc, Some mn, Some mx =>
+      if Nat.eqb (length vals) (length labs) then Some (mkDS (combine vals labs) (Z.to_nat dm) fl sh sc rg fc mn mx) else None
+    | _, _, _, _, _, _, _, _, _ => None
+    end
+  | Lv [vals; labs] =>
+    match get_LLQc vals, get_LZ labs with
+    | Some vals, Some labs => if Nat.eqb (length vals) (length labs) then Some (fresh (combine vals labs)) else None
+    | _, _ => None
+    end
+  | _ => None
+  end.
+Definition get_Lnat (s : sx) : option (list nat) :=
+  match get_LZ s with
+  | Some l => if forallb (fun z => 0 <=? z) l then Some (map Z.to_nat l) else None
+  | None => None
+  end.
+
+(* ---- store machine ----------------------------------------------------------------------------------- *)
+Definition store := list ds.
+Definition sget (st : store) (h : Z) : option ds := if h <? 0 then None else nth_error st (Z.to_nat h).
+Definition sset (st : store) (h : Z) (d : ds) : store := upd (Z.to_nat h) d st.
+
+Definition of_result (st : store) (h : Z) (r : result) : store * sx :=
+  let '(d, e) := r in (sset st h d, Lv [sx_bool e; of_ds d]).
+
+(* one operation: (code handle args...) -> (store', observation) *)
+Definition step (v : variant) (st : store) (op : sx) : store * sx :=
+  match op with
+  | Lv (Zv code :: Zv h :: args) =>
+    match sget st h with
+    | None => (st, sx_err 10)
+    | Some d =>
+      match code, args with
+      | 1, [lo; hi; ov] =>
+        match get_Qc lo, get_Qc hi, get_bool ov with
+        | Some lo, Some hi, Some ov => of_result st h (scale_range lo hi ov d)
+        | _, _, _ => (st, sx_err 11)
+        end
+      | 2, [a; ov] =>
+        match get_arg a, get_bool ov with
+        | Some a, Some ov => of_result st h (scale_factor a ov d)
+        | _, _ => (st, sx_err 12)
+        end
+      | 3, [a; ov] =>
+        match get_arg a, get_bool ov with
+        | Some a, Some ov => of_result st h (shift_value a ov d)
+        | _, _ => (st, sx_err 13)
+        end
+      | 4, [] => of_result st h (revert_scaling d)
+      | 5, [perm] =>
+        match get_Lnat perm with
+        | Some perm => of_result st h (shuffle_with perm d)
+        | None => (st, sx_err 15)
+        end
+      | 6, [idx] =>
+        match get_Lnat idx with
+        | Some idx =>
+          let '(d', e) := move_boundaries_to_front idx d in
+          (sset st h d', Lv [sx_bool e; of_ds d'; sx_bool (same_index_set idx (boundary_idx d))])
+        | None => (st, sx_err 16)
+        end
+      | 7, [] =>
+        if update_internal_raises d && negb (is_empty d) then (st, Lv [Zv 1]) else
+        let ps := split_labels d in
+        (st ++ ps, Lv [Zv 0; of_LZ (distinct_labels (rows d)); Lv (map of_ds ps)])
+      | 8, [p] =>
+        match get_Qc p with
+        | Some p => if update_internal_raises d then (st, Lv [Zv 1]) else
+                    let '(a, b) := split_pieces p d in (st ++ [a; b], Lv [Zv 0; of_ds a; of_ds b])
+        | None => (st, sx_err 18)
+        end
+      | 9, [] => if update_internal_raises d then (st, Lv [Zv 1]) else
+                 let '(a, b) := split_without_labels d in (st ++ [a; b], Lv [Zv 0; of_ds a; of_ds b])
+      | 10, [idx] =>
+        match get_LZ idx with
+        | Some idx =>
+          match remove_samples v idx d with
+          | (d', Some r) => (sset st h d' ++ [r], Lv [Zv 0; of_ds d'; of_ds r])
+          | (d', None) => (sset st h d', Lv [Zv 1; of_ds d'])
+          end
+        | None => (st, sx_err 20)
+        end
+      | 11, [Zv h2] =>
+        match sget st h2 with
+        | Some d2 =>
+          match concatenate v d d2 with
+          | CNew r => (st ++ [r], Lv [Zv 0; Zv 0; of_ds r])
+          | CSelf => (st, Lv [Zv 0; Zv 1])
+          | COther => (st, Lv [Zv 0; Zv 2])
+          | CRaise => (st, Lv [Zv 1])
+          end
+        | None => (st, sx_err 10)
+        end
+      | 12, [Zv h2] =>
+        match sget st h2 with
+        | Some d2 => (st, match same_scaling v d d2 with Some b => Lv [Zv 0; sx_bool b] | None => Lv [Zv 1] end)
+        | None => (st, sx_err 10)
+        end
+      | 13, [snap] =>      (* harness-directed replacement of a stored data set (after implementation-side interference) *)
+        match get_ds snap with
+        | Some d' => (sset st h d', Lv [Zv 0])
+        | None => (st, sx_err 23)
+        end
+      | _, _ => (st, sx_err 1)
+      end
+    end
+  | _ => (st, sx_err 2)
+  end.
+
+Fixpoint run (v : variant) (st : store) (ops : list sx) : list sx :=
+  match ops with
+  | [] => []
+  | op :: r => let '(st', o) := step v st op in o :: run v st' r
+  end.
+
+(* sub 0: ((dataset ...) (op ...) (dedup fullcmp)) -> (observation ...) *)
+Definition entry_C18 (sub : Z) (a : sx) : sx :=
+  match sub, a with
+  | 0, Lv [Lv inits; Lv ops; Lv [vd; vf]] =>
+    match opt_all (map get_ds inits), get_bool vd, get_bool vf with
+    | Some st, Some vd, Some vf => Lv (run (mkVariant vd vf) st ops)
+    | _, _, _ => sx_err 3
+    end
+  | _, _ => sx_err 0
+  end.
